@@ -237,6 +237,11 @@ theorem C18_gradient_methods (lower : String → String) (method : String)
   have key : ∀ m ∈ scipyMethods, usesGradLower m = !(scipyNoGradient.contains m) := by decide
   exact key _ h
 
+/-- a user-supplied callable `method` is run without the jax gradient (`jac=False`), whatever it is -/
+theorem C18_callable_method (lower : String → String) :
+    usesGradM lower .callable = false ∧ ∀ m, usesGradM lower (.name m) = usesGrad lower m :=
+  ⟨rfl, fun _ => rfl⟩
+
 /-! ### non-vacuity -/
 
 section examples
